@@ -171,7 +171,7 @@ fn probe<W: RtcpPacketWriter>(b: &W) {
 /// run the finished builder through the chosen wrapper and observe size and bytes
 fn finish<'a, B>(wrap: &str, b: B, into_pb: impl FnOnce(B) -> PacketBuilder<'a>) -> Result<Kvs, String>
 where
-    B: RtcpPacketWriter + 'a,
+    B: RtcpPacketWriter + W + 'a,
 {
     match wrap {
         "d" => observe(&b, false),
